@@ -171,8 +171,25 @@ func runDiskCase(segs []SegPlan, tag string) *DiskCase {
 			}
 			dir = next
 		}
-		e := NewEmu(bttest.LeveldbDiskStorage{Root: dir, ErrLog: func(error, string) {}})
+		var e *Emu
+		startErr := ""
+		func() {
+			defer func() {
+				if p := recover(); p != nil {
+					startErr = fmt.Sprint(p)
+				}
+			}()
+			e = NewEmu(bttest.LeveldbDiskStorage{Root: dir, ErrLog: func(error, string) {}})
+		}()
 		seg := DiskSeg{Prog: prog}
+		if startErr != "" {
+			// the server does not even start on the directory: every request of the segment is lost
+			for range prog {
+				seg.Obs = append(seg.Obs, DiskObs{Resp: Resp{Code: 99, Kind: "none", Panic: "the server does not start on the directory: " + startErr}})
+			}
+			c.Segs = append(c.Segs, seg)
+			break
+		}
 		for ci, call := range prog {
 			s := NewSched(e, [][]Call{{call}})
 			var o DiskObs
